@@ -217,6 +217,16 @@ _DKW = {"deserialize_bool": "C03.K.dec.bool_u8_i8", "deserialize_u8": "C03.K.dec
 for _b in [16, 32, 64, 128]:
     _DKW["deserialize_u%d" % _b] = "C03.K.de.take_u%d" % _b
     _DKW["deserialize_i%d" % _b] = "C03.K.dec.i%d" % _b
+for _m, _w in [("deserialize_seq", "C01.K.seq_access*"), ("deserialize_map", "C01.K.map_access*"), ("deserialize_tuple", "C01.K.kind.tuple"),
+               ("deserialize_tuple_struct", "C01.K.kind.tuple_struct"), ("deserialize_struct", "C01.K.kind.struct"), ("deserialize_enum", "C03.K.dec.enum")]:
+    _DKW[_m] = _w
+for _m in ["deserialize_any", "deserialize_identifier", "deserialize_ignored_any"]:
+    V("C04.V.dekind." + _m, "dekinds", "Deserializer::" + _m, {"C04": "D", "C03": "S"}, fns=[DES + _m], witness="C04.K.wont_implement*",
+      note=_m + ": refused with an error - for every visitor and every stream")
+for _m, _q, _w in [("seq_next_element_seed", "SeqAccess::next_element_seed", "C01.K.seq_access*"), ("map_next_key_seed", "MapAccess::next_key_seed", "C01.K.map_access*"),
+                   ("map_next_value_seed", "MapAccess::next_value_seed", "C01.K.map_access*")]:
+    V("C03.V.dekind." + _m, "dekinds", _q, {"C03": "D", "C01": "S", "C04": "S"}, fns=["postcard::de::deserializer::" + _q], witness=_w,
+      note=_q + ": while the announced count is > 0 runs ANY seed on the stream exactly once and counts down, propagating its error; at 0 returns None and touches nothing")
 for _m, _w in sorted(_DKW.items()):
     V("C03.V.dekind." + _m, "dekinds", "Deserializer::" + _m, {"C03": "D", "C04": "S", "C01": "S"}, fns=[DES + _m], witness=_w,
       note=_m + ": shows ANY visitor exactly the value the wire format prescribes for the front of the stream, consumes exactly those bytes, otherwise the error kind of the first violated rule - generic over any flavour meeting the flavour contract, every stream of every length (callee contracts: try_take_varint_* from unit devarint, de_zig_zag_* from unit zigzag)")
@@ -474,7 +484,7 @@ ASSUMPTIONS = {
     "C01": [A_SERDE, A_PARAM, "nesting to arbitrary depth is not proved as one theorem: per-kind round trips + composite probes (depth <= 3) + A-serde"],
     "C02": [A_SERDE, A_PARAM, "Verus stub le0_* (x.to_le_bytes()[0] == x & 0xff) - discharged by Kani harnesses C02.K.stub.le0_*", "debug_assert_eq!(value, 0) dropped on Route V (D2); Kani checks it",
             "unit emit: Flavor and Serialize are re-declared traits carrying the flavour contract (out' == out ++ data on Ok) and the payload hypothesis (a value appends wire()); str length/bytes through stubs str_len / str_as_bytes over an uninterpreted str_bytes (D17, std: len() == as_bytes().len()); array-length literals for varint_max::<T>() (D18, == C12.V.varint_max); .map_err(|_| BufferFull) dropped (D12); methods of `&mut Serializer<F>` taken by value are extracted as inherent `&mut self` methods (D15) and compound-state results Ok(self) as Ok(()) (D16); serialize_i8 / f32 / f64 / char / collect_str are not in the unit (Kani only)"],
-    "C03": [A_SERDE, A_PARAM, "unit dekinds: Flavor and Visitor are re-declared traits (flavour contract; an abstract visitor whose answer on_X(v) is any function of the value shown, and whose effect on the stream for option/newtype payloads is any function of the stream); UTF-8 validity is the uninterpreted utf8_ok with the stub from_utf8_or_bad = core::str::from_utf8(..).map_err(BadUtf8) (D19, std); Deserializer's fields made pub for the abstract contract (visibility only); deserialize_char / f32 / f64 / seq / tuple / map / struct / enum are not in the unit (Kani contracts)", "UTF-8 validity oracle for strings <= 3 bytes is written from Unicode Table 3-7; char oracle uses char::encode_utf8 (std)"],
+    "C03": [A_SERDE, A_PARAM, "unit dekinds: Flavor and Visitor are re-declared traits (flavour contract; an abstract visitor whose answer on_X(v) is any function of the value shown, and whose effect on the stream for option/newtype payloads is any function of the stream); UTF-8 validity is the uninterpreted utf8_ok with the stub from_utf8_or_bad = core::str::from_utf8(..).map_err(BadUtf8) (D19, std); Deserializer's fields made pub for the abstract contract (visibility only); deserialize_char / f32 / f64, EnumAccess::variant_seed and size_hint are not in the unit (Kani contracts); for compound kinds the visitor's / seed's effect on the stream is an arbitrary function (on_seq, on_map, on_enum, on_de)", "UTF-8 validity oracle for strings <= 3 bytes is written from Unicode Table 3-7; char oracle uses char::encode_utf8 (std)"],
     "C04": [A_SERDE, "A-cautious: serde's collection visitors cap pre-allocation by min(hint, 1 MiB / size_of::<T>()); the numeric allocation bound itself is not decided by any contract in reach", "MapAccess::size_hint returns Some(len) unconditionally (maps are outside the property's allocation clause; recorded, not alarmed)"],
     "C05": [A_SERDE, A_PARAM, "capacity running out at every byte position is covered per flavour contract (symbolic capacity), not as one API-level theorem"],
     "C06": ["A-cobs-src: the cobs source verified is the registry copy of cobs 0.2.3 pinned by Cargo.lock, with a cfg(kani) constructor/getter appended in the scratch copy only", "the link between the per-step contract (Kani, arbitrary state) and the whole-message theorem (Verus lemma) is the shared abstract machine M; Cobs<B> relies on B only through the Flavor + IndexMut contract proved for Slice/HVec", A_SERDE],
